@@ -1,0 +1,54 @@
+//! Verification hooks (cargo feature `verif_hooks`, off by default).
+//!
+//! Nothing in here changes what RustFFT computes. The module offers
+//!  - a process-wide mask that can only *hide* x86 CPU capabilities from RustFFT's own
+//!    run-time feature detection (so that the AVX-without-AVX2, SSE-only and scalar fallback
+//!    branches can be exercised on a CPU that has everything), and
+//!  - `verif_plan_report` methods on the planners (defined next to each planner) which return
+//!    the plan a planner would build for a length as text, without building it.
+
+use std::sync::atomic::{AtomicU32, Ordering};
+
+/// Bit for the `sse4.1` CPU feature
+pub const FEATURE_SSE41: u32 = 1;
+/// Bit for the `avx` CPU feature
+pub const FEATURE_AVX: u32 = 2;
+/// Bit for the `fma` CPU feature
+pub const FEATURE_FMA: u32 = 4;
+/// Bit for the `avx2` CPU feature
+pub const FEATURE_AVX2: u32 = 8;
+
+static HIDDEN_FEATURES: AtomicU32 = AtomicU32::new(0);
+
+/// Hides the given CPU features (a bit set of the `FEATURE_*` constants) from RustFFT's feature detection.
+/// Features can only be hidden, never invented: a feature is reported as present only if it is not hidden
+/// AND the real CPU has it.
+pub fn set_hidden_features(mask: u32) {
+    HIDDEN_FEATURES.store(mask, Ordering::SeqCst);
+}
+
+/// Returns the bit set of currently hidden CPU features
+pub fn hidden_features() -> u32 {
+    HIDDEN_FEATURES.load(Ordering::SeqCst)
+}
+
+/// Returns false if the named CPU feature is currently hidden
+pub fn allowed(feature: &str) -> bool {
+    let bit = match feature {
+        "sse4.1" => FEATURE_SSE41,
+        "avx" => FEATURE_AVX,
+        "fma" => FEATURE_FMA,
+        "avx2" => FEATURE_AVX2,
+        _ => 0,
+    };
+    HIDDEN_FEATURES.load(Ordering::SeqCst) & bit == 0
+}
+
+// Shadows `std::is_x86_feature_detected!` for every module declared after this one in lib.rs.
+#[cfg(target_arch = "x86_64")]
+#[allow(unused_macros)]
+macro_rules! is_x86_feature_detected {
+    ($feature:tt) => {
+        ($crate::verif_hooks::allowed($feature) && std::is_x86_feature_detected!($feature))
+    };
+}
